@@ -223,11 +223,12 @@ fn serialize_v0(
     }
 
     //serialize layer records, offset_pos = 8
+    // (a null layerRecordsOffset although the retained base glyphs have layers: malformed table)
     let layer_records = colr
         .layer_records()
         .transpose()
         .map_err(|_| SerializeErrorFlags::SERIALIZE_ERROR_READ_ERROR)?
-        .unwrap();
+        .ok_or(SerializeErrorFlags::SERIALIZE_ERROR_READ_ERROR)?;
 
     Offset32::serialize_subset(
         &layer_records,
